@@ -8,6 +8,7 @@ struct TraceOpts {
     bool fullSnapshots = false;                       // include full snapshot text (C19) instead of digests
     std::function<void(size_t opIndex)> beforeOp;     // schedule perturbation hook (C18)
     std::function<void(const std::string &kind, bool begin)> ioMark;   // statistics only
+    int pathStyle = 0; std::string pathTag;           // see Interp::path (C18: threads saving into one directory)
 };
 std::string traceOf(const Case &c, const std::string &scratch, const TraceOpts &o = TraceOpts());
 }
